@@ -541,7 +541,7 @@ func (g *c02Gen) rest(app []string, depth int, stem string) dRest {
 // esc writes a name the way the grammar wants it: characters that are not name characters are
 // URL-escaped (the compiler unescapes them)
 func esc(name string) string {
-	return strings.NewReplacer("-", "%2D", " ", "%20", ":", "%3A").Replace(name)
+	return strings.NewReplacer("-", "%2D", " ", "%20", ":", "%3A", "\"", "%22", "\\", "%5C").Replace(name)
 }
 
 func escParts(parts []string) string {
